@@ -61,9 +61,17 @@ def analyse(ctx, prog, chk):
             chk.ok("INSTALL-MUST", fn, idf, "every normal return has passed the store of ->%s inside the installation sequence" % idf, line=fn.line)
             continue
         stale = []
+        # a curve setter also installs the field underneath (it calls the field's setter): the public installers of the
+        # field change that state without knowing the curve identifier
+        under = None
+        called = set(c[1] for el in fn.all_elements() for c in ir.calls_in(fn, el.e) if c[1])
+        if any(re.match(r"^fp_(param_set|prime_set_\w+)$", c) for c in called):
+            under = re.compile(r"^fp_(param_set|prime_set_(dense|pairf|pmers))$")
+        elif any(re.match(r"^fb_(param_set|poly_set_\w+)$", c) for c in called):
+            under = re.compile(r"^fb_(param_set|poly_set_(dense|trino|penta))$")
         if keyed:
             for f2 in lib.all:
-                if inst.match(f2.name) and not f2.static:
+                if (inst.match(f2.name) or (under is not None and under.match(f2.name))) and not f2.static:
                     writes_id = any(sub[0] == "=" and isinstance(ir.strip_casts(sub[1]), list) and ir.strip_casts(sub[1])[0] == "m" and ir.strip_casts(sub[1])[2] == idf
                                     for el in f2.all_elements() for sub in ir.walk(f2, el.e))
                     if not writes_id:
